@@ -102,7 +102,7 @@ var intOps = []string{
 
 func TestNumctInt(t *testing.T) {
 	const test = "NumctInt"
-	vlib.Check(t, 14000, func(t *rapid.T) {
+	vlib.Check(t, 20000, func(t *rapid.T) {
 		op := rapid.SampledFrom(intOps).Draw(t, "op")
 		big4k, mid := maxBitsCheap(), maxBitsExpensive()
 		var sizeC, capC, aliasC, signC, extra string
